@@ -200,6 +200,11 @@ def reqRun (cap : Nat) : GConn → List String → List String → String
       match ((it.drop 1).toString).toNat? with
       | some id => reqRun cap { c with streams := c.streams.filter (·.id != id) } rest ("x" :: acc)
       | none => "bad-op"
+    else if kind == "S" then
+      -- S<id>/<status>: the response of a tracked stream has begun (r->http_status set).  Nothing
+      -- in the HPACK state depends on it: trailers are decoded to the end of the block whatever
+      -- http_request_parse_header() says about a field and whatever the status already is.
+      reqRun cap c rest ("s" :: acc)
     else if kind == "H" || kind == "h" then
       match ((it.drop 1).toString).splitOn "/" with
       | id :: es :: _pad :: dep :: frags :: keep :: _ =>
